@@ -20,7 +20,9 @@ RULE = ('(range, tag) pairs: every sequence of up to k subtags over {a, b, de, D
         '(exhaustive for the tier\'s k; the RFC reference judges only ranges without empty subtags, or the lone empty range), checked three ways: PY extended_language_filter vs an independent RFC 4647 '
         'section 3.3.2 reference (the property itself), PY vs the Lean model, Lean model vs the reference; plus '
         'documents with lang / xml:lang / <meta> placements at every depth in html, html5, xhtml and xml against '
-        ':lang() selectors through the matcher model. Non-trivial pair = the reference says match.')
+        ':lang() selectors through the matcher model, among them compound selectors with two or three :lang() and negated '
+        ':lang() (the language has to be accepted by each positive one and by no negated one; every :lang() judged on its own by '
+        'the independent reading of the rule). Non-trivial pair = the reference says match.')
 
 ALPHA = ['a', 'b', 'de', 'DE', 'x', '*', '', 'latn']
 
@@ -112,13 +114,14 @@ def lang_docs(rng, n):
     cases = []
     langs = ['en', 'en-US', 'de', '', 'de-DE-1996', 'fr', 'de-Latn-DE', 'x-y']
     ranges = ['en', '"de-*"', '"*-DE"', '""', '"*"', 'de-DE', '"de-*-DE"', 'fr, en', '"*-*"', 'EN', '"de-"', 'x']
-    for _ in range(n):
+
+    def document(p_lang=0.4):
         kind = rng.choice(['html', 'html5', 'xhtml', 'xml'])
         depth = rng.randint(1, 4)
 
         def chain(d):
             attrs = []
-            if rng.random() < 0.4:
+            if rng.random() < p_lang:
                 attrs.append(('lang', rng.choice(langs)))
             if rng.random() < 0.15:
                 attrs.append(('xml:lang', rng.choice(langs)))
@@ -145,15 +148,43 @@ def lang_docs(rng, n):
             head_kids.append(('e', 'meta', None, None, [('http-equiv', 'content-language'), ('content', 'de')], []))
         html_attrs = [('lang', rng.choice(langs))] if rng.random() < 0.25 else []
         html = ('e', 'html', None, None, html_attrs, [('e', 'head', None, None, [], head_kids), body])
-        top = [html]
+        return kind, [html]
+
+    def queries(kind, top, ops=('match',)):
+        els = gen.elements(gen.build_doc(kind, top))
+        return [('select', [], 0)] + [(rng.choice(ops), enc.path_of(rng.choice(els)), 0) for _ in range(2)]
+
+    for _ in range(n):
+        kind, top = document()
         sel = ':lang(' + rng.choice(ranges) + ')'
         if rng.random() < 0.3:
             sel = rng.choice(['p', 'div', ':not(p)']) + sel
-        probe = gen.build_doc(kind, top)
-        els = gen.elements(probe)
-        qs = [('select', [], 0)] + [('match', enc.path_of(rng.choice(els)), 0) for _ in range(2)]
-        cases.append({'kind': kind, 'tree': top, 'selector': sel, 'queries': qs, 'lang_range_text': sel[sel.index(':lang(') + 6:-1],
-                      'prefix': sel[:sel.index(':lang(')]})
+        cases.append({'kind': kind, 'tree': top, 'selector': sel, 'queries': queries(kind, top),
+                      'lang_lists': [sel[sel.index(':lang(') + 6:-1]], 'not_lang_lists': [], 'prefix': sel[:sel.index(':lang(')]})
+    # One compound selector carrying SEVERAL :lang() (and negated :lang()): the statement holds for every :lang() of a selector,
+    # so the element's language has to be accepted by each of them (":lang(en):lang('*-US')" = "English and US region"), and by
+    # none of the negated ones.  Range lists of one to three ranges, in every order, with the other simple selectors before,
+    # between and after them.
+    singles = ['en', '"de-*"', '"*-DE"', '""', '"*"', 'de-DE', '"de-*-DE"', '"*-*"', 'EN', 'x', 'de', 'fr', '"*-US"', '"en-*"', 'de-1996',
+               '"*-Latn"', 'x-y', '"*-y"', '"de-"']
+    for _ in range(n // 2):
+        kind, top = document(p_lang=0.55)
+
+        def range_list():
+            return ', '.join(rng.sample(singles, rng.choice([1, 1, 1, 2, 2, 3])))
+        pos = [range_list() for _ in range(rng.choice([2, 2, 2, 3]))]
+        neg = [range_list() for _ in range(rng.choice([0, 0, 0, 1]))]
+        if rng.random() < 0.15:
+            pos.append(rng.choice(pos))                     # the same :lang() twice
+        parts = [':lang(' + r + ')' for r in pos] + [':not(:lang(' + r + '))' for r in neg]
+        rng.shuffle(parts)
+        prefix = rng.choice(['', '', '', 'p', 'div', ':not(p)', '*'])
+        extra = rng.choice(['', '', '', ':not(p)', ':not(div, span)'])       # a simple selector between / after the :lang()s
+        if extra:
+            parts.insert(rng.randint(1, len(parts)), extra)
+        sel = prefix + ''.join(parts)
+        cases.append({'kind': kind, 'tree': top, 'selector': sel, 'queries': queries(kind, top, ('match', 'closest', 'filter')),
+                      'lang_lists': pos, 'not_lang_lists': neg, 'prefix': (prefix or '*') + extra})
     # parser-built documents: html5lib (SVG/MathML under lang), lxml-xml (xml:lang as a namespaced attribute)
     for _ in range(max(20, n // 6)):
         l1, l2 = rng.choice(langs[:3] + ['de-CH', 'fr-CA']), rng.choice(langs[:3] + ['de-CH', 'fr-CA'])
@@ -215,24 +246,38 @@ def run(chk):
                 doc_bad.append({'case': rec['case'], 'py': rec['py'], 'model': rec['lean']})
     # the inherited-language rule itself, on the real code, against the independent reading above
     rule_bad = []
+    rule_docs = rule_compound = rule_split = 0
     for case in (cases if driver_ok else lang_docs(rng, 600 if quick else 20000)):
-        if 'lang_range_text' not in case:
+        if 'lang_lists' not in case:
             continue
-        ranges_ = [r_.strip().strip('"') for r_ in case['lang_range_text'].split(',')]
-        if not all(r_ == '' or all(r_.split('-')) for r_ in ranges_):
+        # every :lang() of the compound selector is judged on its own: the language has to be accepted by some range of each
+        # positive one and by no range of a negated one
+        pos = [[r_.strip().strip('"') for r_ in text.split(',')] for text in case['lang_lists']]
+        neg = [[r_.strip().strip('"') for r_ in text.split(',')] for text in case['not_lang_lists']]
+        if not all(r_ == '' or all(r_.split('-')) for ranges_ in pos + neg for r_ in ranges_):
             continue
+        rule_docs += 1
+        rule_compound += len(pos) + len(neg) > 1
+
+        def accepts(ranges_, lg):
+            return lg is not None and isinstance(lg, str) and any(rfc4647(r_, lg) for r_ in ranges_)
         soup = matchcorr.materialise(case)
         want = []
         for e in gen.elements(soup):
             if case['prefix'] and not sv.match(case['prefix'], e):
                 continue
             lg = element_language(soup, e)
-            if lg is not None and isinstance(lg, str) and any(rfc4647(r_, lg) for r_ in ranges_):
+            verdicts = [accepts(ranges_, lg) for ranges_ in pos] + [not accepts(ranges_, lg) for ranges_ in neg]
+            rule_split += len(set(verdicts)) > 1
+            if all(verdicts):
                 want.append(enc.path_of(e))
         got = [enc.path_of(e) for e in sv.select(case['selector'], soup)]
         if got != want:
-            rule_bad.append({'case': {k: v for k, v in case.items() if k in ('kind', 'tree', 'selector')}, 'py': got, 'expected': want})
-    chk.coverage['inherited_language_rule_documents'] = sum(1 for c_ in cases if 'lang_range_text' in c_) if driver_ok else None
+            rule_bad.append({'case': {k: v for k, v in case.items() if k in ('kind', 'tree', 'selector', 'lang_lists', 'not_lang_lists')}
+                             | {'queries': [('select', [], 0)]}, 'py': got, 'expected': want})
+    chk.coverage['inherited_language_rule_documents'] = rule_docs
+    chk.coverage['inherited_language_rule_compound_selectors'] = rule_compound      # selectors with two or more :lang()
+    chk.coverage['inherited_language_rule_elements_split'] = rule_split             # elements on which the :lang()s of one selector disagree
     chk.coverage['inherited_language_rule_failures'] = len(rule_bad)
     for i, bad in enumerate(rule_bad[:3]):
         chk.violation(f'rule{i}', {'what': ':lang() differs from "nearest lang within the same document, else that document\'s content-language pragma, else unknown"', **bad}, concrete=True)
